@@ -41,7 +41,7 @@ class C15(C06):
         # line (another locale) replaces the first one in place, at the same address
         pooled = rng.random() < 0.5
         locs = rng.sample(["en", "pl", "ru", "ar", "cs", "fr", "lt"], 2) if pooled else [rng.choice(["en", "en-US"])]
-        opts = "iso=%d;tr=%s;fm=%s;fl=conc" % (rng.randrange(2), rng.choice(["none", "upper", "pseudo", "pseudo"]),
+        opts = "iso=%d;tr=%s;fm=%s;fl=conc" % (rng.randrange(2), rng.choice(["none", "upper", "pseudo", "pseudo", "bracket"]),
                                                rng.choice(["none", "numbr"]))
         reqs = []
         for m in ["p0", "p1", "p2", "p3", "p4", "p4"] + resgen.MSGS:
